@@ -12,11 +12,12 @@
 (***************************************************************************)
 EXTENDS Integers, Sequences, FiniteSets, TLC
 CONSTANTS MaxLines
-VARIABLES toks, part, pos, mode, n, st
-vars == <<toks, part, pos, mode, n, st>>
+VARIABLES toks, part, pos, mode, n, st, fail
+vars == <<toks, part, pos, mode, n, st, fail>>
 Kinds == {"H", "Hbad", "B", "", "T", "Tbad", "J"}
 Init == /\ toks \in UNION {[1..k -> Kinds] : k \in 0..MaxLines}
         /\ part \in BOOLEAN
+        /\ fail \in BOOLEAN          \* the source ends in an I/O error instead of end-of-input
         /\ pos = 1 /\ mode = "header" /\ n = 0 /\ st = "run"
 
 AtEnd == pos > Len(toks)
@@ -30,18 +31,18 @@ HeaderScan ==   \* ParseOne's first loop
          [] Tok = "Hbad" -> st' = "err" /\ UNCHANGED <<mode, n>>
          [] Tok \in {"H", "J"} -> (IF Tok = "H" THEN mode' = "body" /\ UNCHANGED <<n, st>>
                                    ELSE st' = "err" /\ UNCHANGED <<mode, n>>)          \* junk as header: version does not parse
-    /\ UNCHANGED <<toks, part>>
+    /\ UNCHANGED <<toks, part, fail>>
 Body ==         \* ParseOne's second loop
     /\ mode = "body" /\ Read
     /\ CASE Tok \in {"B", ""} -> UNCHANGED <<mode, n, st>>
          [] Tok \in {"H", "Hbad", "J"} -> st' = "err" /\ UNCHANGED <<mode, n>>         \* "Didn't get ending line"
          [] Tok = "T" -> mode' = "header" /\ n' = n + 1 /\ UNCHANGED st
          [] Tok = "Tbad" -> st' = "err" /\ UNCHANGED <<mode, n>>
-    /\ UNCHANGED <<toks, part>>
+    /\ UNCHANGED <<toks, part, fail>>
 \* (after fix) end of input is the clean end of the list only between entries
 Eof == /\ st = "run" /\ AtEnd
-       /\ st' = IF mode = "header" THEN "done" ELSE "err"
-       /\ UNCHANGED <<toks, part, pos, mode, n>>
+       /\ st' = IF fail THEN "err" ELSE IF mode = "header" THEN "done" ELSE "err"     \* an I/O error is an error wherever it strikes
+       /\ UNCHANGED <<toks, part, pos, mode, n, fail>>
 Next == HeaderScan \/ Body \/ Eof
 Spec == Init /\ [][Next]_vars /\ WF_vars(Next)
 
@@ -55,6 +56,7 @@ Blocks(i, inEntry, acc) ==
           ELSE IF toks[i] = "T" THEN Blocks(i + 1, FALSE, acc + 1) ELSE -1)
 WellFormed == Blocks(1, FALSE, 0) >= 0
 AllOrError == (st = "done") => (WellFormed /\ n = Blocks(1, FALSE, 0))
-Accepts == (st \in {"done", "err"} /\ WellFormed) => st = "done"
+Accepts == (st \in {"done", "err"} /\ WellFormed /\ ~fail) => st = "done"
+FaultReported == (fail /\ st \in {"done", "err"}) => st = "err"
 Terminates == <>(st \in {"done", "err"})
 =============================================================================
